@@ -504,7 +504,7 @@ func run(c *lib.Ctx) {
 		"and what every later successful transaction OBSERVED through state get / local get / local list, echoed in its receipt log) is compared with a reference interpreter of the statement's semantics. " +
 		"non-trivial = block in which a successful transaction read a key (or listed the prefix) that an earlier failed transaction or failed group had written; distinct = block fingerprint")
 	c.Assume("deferred (block-add time) local execution is not part of this check (C14 covers add/remove symmetry)", "fee KV of the coins executor is ignored when comparing receipt writes")
-	n := c.N(240, 6000)
+	n := c.N(240, 48000)
 	per := 20
 	nb := (n + per - 1) / per
 	lib.Parallel(nb, 14, func(bi int) {
